@@ -27,9 +27,9 @@ QUANT = ["modulus_adiabatic", "modulus_isothermal", "tp_bulk_vrh", "tp_vp", "tp_
 WRITES = [("tp", "cij"), ("tp", "bm_VRH"), ("tv", "p")]
 
 
-def run_worker(job, wd, name, seed, cwd_kind):
+def run_worker(job, wd, name, seed, cwd_kind, cwd_path=None):
     jd = wd.sub(name)
-    cw = jd / "cwd"
+    cw = Path(cwd_path) if cwd_path else jd / "cwd"
     cw.mkdir(exist_ok=True)
     entries = []
     if cwd_kind == "junk":
@@ -105,7 +105,15 @@ def main(ctx, replay=None):
                 + [["WriteOutput", 1]] + ([["CliRun", "A"]] if c == "A" else [])
             ev, rc, err = run_worker(dict(base_job, actions=ra, mode="ref"), wd, f"ref{c}", 0, "empty")
             if rc != 0 or len(ev) < 10:
-                raise MachineryError(f"reference process for {c} failed (rc={rc}): {err}")
+                # does the same history succeed when started inside the data directory?  Then the calculation depends on the working directory.
+                ev2, rc2, _ = run_worker(dict(base_job, actions=ra[:3], mode="ref"), wd, f"ref{c}_in", 0, "datadir", cwd_path=Path(datasets[c]).parent)
+                if rc2 == 0 and len(ev2) >= 2:
+                    ctx.count({"env": {"seed": "0", "cwd": "empty"}, "history": ra[:3]})
+                    ctx.violation(f"the calculation of configuration {c} fails when the process is started in an unrelated (empty) working directory "
+                                  f"but succeeds when started inside the data directory: {err.strip().splitlines()[-1] if err.strip() else rc}",
+                                  {"config": c, "stderr": err}, {"clause": "cwd_dependence", "config": c})
+                    return
+                raise MachineryError(f"reference process for {c} failed (rc={rc}; inside the data directory rc={rc2}, {len(ev2)} events): {err}")
             ref_ev += ev
         trace = list(ref_ev)
         meta = []
